@@ -214,6 +214,10 @@ class C11(Prop):
             for i in range(nfiles):
                 kind = 10 if i % 2 == 0 else 11
                 _, o, sizes, inp, tags = pipeline_input(rng, tier, 0 if kind == 10 else 2)
+                if kind == 10 and i % 4 == 0:
+                    # non-finite values (accepted from bedGraph text): both converter paths must print them alike
+                    for k in rng.sample(range(len(inp)), min(len(inp), 5)):
+                        inp[k][3] = rng.choice([0x7fc00000, 0x7f800000, 0xff800000])
                 path = os.path.join(work, "f%d.%s" % (i, "bw" if kind == 10 else "bb"))
                 cases.append(sx([kind, o, sizes, inp, path]))
                 metas.append((kind, path, len(inp)))
